@@ -9,6 +9,7 @@ CONSTANTS
   AllowImport = TRUE
   PersistIns = "none"
   PersistRem = "sync"
+  CommitFlush = TRUE
   OneBatch = TRUE
   CasFirst = TRUE
   Gen = FALSE
